@@ -209,13 +209,12 @@ class CentralizedTaskingEngine(TaskingEngine):
             ``list``: :class:`.Observation` objects constructed from imported database
         """
         # [NOTE]: every tasking engine reads the same importer database, so each one only loads the
-        #   observations made by its own sensors of its own targets. Otherwise an observation is
-        #   handed to the filter (and written to the output database) once per engine.
+        #   observations of its own targets, whichever sensor made them. Otherwise an observation
+        #   is handed to the filter (and written to the output database) once per engine.
         query = (
             Query(Observation)
             .join(Epoch)
             .filter(Epoch.timestampISO == datetime_epoch.isoformat(timespec="microseconds"))
-            .filter(Observation.sensor_id.in_(self.sensor_list))
             .filter(Observation.target_id.in_(self.target_list))
         )
         imported_observation_data = self._importer_db.getData(query)
